@@ -23,17 +23,39 @@ import numpy as np
 from .. import env, tlc, kernels
 from ..evidence import Check
 
-MUT = {1: "mB", 2: "mA", 3: "mC"}
+MUT = {1: "mB", 2: "mA", 3: "mC", 4: "mZ", 5: "m10", 6: "m9", 7: "mD", 8: "mY"}
 SAM = {1: "S2", 2: "S10", 3: "S1"}
-CLUSTER_OF = {"mB": 7, "mA": 3, "mC": 3}
+INT_MUT = {1: "77", 2: "101", 3: "9", 4: "1000", 5: "12", 6: "3", 7: "250", 8: "41"}      # integer-looking mutation ids
+CLUSTER_OF = {"mB": 7, "mA": 3, "mC": 3, "mZ": 11, "m10": 7, "m9": 2, "mD": 11, "mY": 5,
+              "77": 7, "101": 3, "9": 3, "1000": 11, "12": 7, "3": 2, "250": 11, "41": 5}
 MC = "---- MODULE MC_Loader ----\nEXTENDS Loader\nCellsDef == {<<>>, <<1>>, <<2>>, <<0>>, <<1, 1>>, <<1, 0>>}\n====\n"
 
 
 def tlc_tables(ck, job, M, S):
-    cfg = tlc.cfg_text(constants={"M": M, "S": S, "Cells": "<- CellsDef", "Dump": "TRUE"}, invariants=["RulesAgree", "DocIsSubset", "Emit"])
+    cfg = tlc.cfg_text(constants={"M": M, "S": S, "Cells": "<- CellsDef", "FixedTabs": "{}", "Dump": "TRUE"}, invariants=["RulesAgree", "DocIsSubset", "Emit"])
     r = tlc.run_tlc(job, "MC_Loader", cfg, mc_text=MC, timeout=3000)
     tlc.require_ok(r, "Loader")
     ck.add_tlc("Loader.tla M=%d S=%d (all tables, 6 cell contents)" % (M, S), r)
+    return r.json_prints
+
+
+def big_tables(ck, seed):
+    """Large tables (8 mutations x 3 samples, more than 16 kept rows) given to Loader.tla as FixedTabs."""
+    rnd = random.Random(seed + 21)
+    tabs = []
+    for _ in range(3):
+        cells = {}
+        for m in range(1, 9):
+            bad = rnd.random() < 0.25
+            for s in range(1, 4):
+                cells[(m, s)] = [1] if not bad or s != rnd.randint(1, 3) else rnd.choice([[], [0], [1, 1], [1, 0]])
+        tabs.append(cells)
+    lit = ", ".join("[c \\in (1..8) \\X (1..3) |-> CASE " + " [] ".join("c = <<%d, %d>> -> <<%s>>" % (m, s, ", ".join(str(x) for x in rows)) for (m, s), rows in cells.items()) + "]" for cells in tabs)
+    mc = MC.replace("====", "FixedDef == {%s}\n====" % lit)
+    cfg = tlc.cfg_text(constants={"M": 8, "S": 3, "Cells": "<- CellsDef", "FixedTabs": "<- FixedDef", "Dump": "TRUE"}, invariants=["RulesAgree", "DocIsSubset", "Emit"])
+    r = tlc.run_tlc("c17_big", "MC_Loader", cfg, mc_text=mc, timeout=1500)
+    tlc.require_ok(r, "Loader fixed tables")
+    ck.add_tlc("Loader.tla on 3 large tables (8 mutations x 3 samples)", r)
     return r.json_prints
 
 
@@ -82,7 +104,18 @@ def reference_row(row, d, optional=True):
     return _ref_cache[key]
 
 
-def check_table(rec, idx, workdir, seed, corrupt=None):
+def check_table(rec, idx, workdir, seed, corrupt=None, names=None):
+    global MUT
+    saved_mut = MUT
+    if names is not None:
+        MUT = names
+    try:
+        return _check_table(rec, idx, workdir, seed, corrupt)
+    finally:
+        MUT = saved_mut
+
+
+def _check_table(rec, idx, workdir, seed, corrupt=None):
     probs = []
     if not rec["judged"]:
         return probs
@@ -93,6 +126,8 @@ def check_table(rec, idx, workdir, seed, corrupt=None):
         if not rows:
             return probs
         kept = sorted(MUT[m] for m in rec["kept"])
+        if all(v.isdigit() for v in MUT.values()):
+            kept = sorted(kept, key=int)     # integer identifiers are read as numbers: their sorted order is numeric
         if corrupt == "kept" and kept:
             kept = kept[1:]
         samples_sorted = sorted({SAM[c["s"]] for c in rec["cells"]})
@@ -116,7 +151,7 @@ def check_table(rec, idx, workdir, seed, corrupt=None):
                     break   # a table without any usable mutation cannot be analysed; failing on it is not judged
                 probs.append(("C17|exception:%s" % type(ex).__name__, "load_data raised %s: %s on a valid table (row order %d)" % (type(ex).__name__, ex, oi), rep))
                 break
-            names = [dp.name for dp in data]
+            names = [str(dp.name) for dp in data]
             if names != kept:
                 extra = sorted(set(names) - set(kept))
                 sig = "C17|kept_set"
@@ -134,11 +169,12 @@ def check_table(rec, idx, workdir, seed, corrupt=None):
                 break
             cells = {(MUT[c["m"]], SAM[c["s"]]): c for c in rec["cells"]}
             for dp in data:
+                dp_name = str(dp.name)
                 if dp.value.shape != (len(samples_sorted), 5):
                     probs.append(("C17|shape", "value shape %s for %d samples" % (dp.value.shape, len(samples_sorted)), rep))
                     continue
                 for si, sn in enumerate(samples_sorted):
-                    c = cells[(dp.name, sn)]
+                    c = cells[(dp_name, sn)]
                     j = [k for k, mj in enumerate(c["rows"]) if mj > 0][0]
                     row = payload(c["m"], c["s"], j, c["rows"][j])
                     if not optional:
@@ -146,8 +182,8 @@ def check_table(rec, idx, workdir, seed, corrupt=None):
                     ref = reference_row(row, d, optional=True)
                     if dp.value[si].shape != ref.shape or not np.allclose(dp.value[si], ref, rtol=0, atol=1e-12):
                         probs.append(("C17|row_value", "likelihood row of %s in sample %s differs from that row loaded alone%s (max dev %.3g)" % (
-                            dp.name, sn, "" if optional else " with tumour_content=1.0, error_rate=0.001", float(np.max(np.abs(dp.value[si] - ref)))), rep))
-            cur = [(dp.name, dp.idx, dp.value.tobytes()) for dp in data]
+                            dp_name, sn, "" if optional else " with tumour_content=1.0, error_rate=0.001", float(np.max(np.abs(dp.value[si] - ref)))), rep))
+            cur = [(str(dp.name), dp.idx, dp.value.tobytes()) for dp in data]
             if base is None:
                 base = cur
             elif cur != base:
@@ -165,7 +201,7 @@ def check_table(rec, idx, workdir, seed, corrupt=None):
             try:
                 data, samples = load(p, cluster_file=cf)
                 un, _ = load(p)
-                by = {dp.name: dp.value for dp in un}
+                by = {str(dp.name): dp.value for dp in un}
                 want = {}
                 for nm in kept:
                     want.setdefault(CLUSTER_OF[nm], []).append(nm)
@@ -198,12 +234,16 @@ def run(corrupt=None):
         extra = tlc_tables(ck, "c17_32", 3, 2)
         rnd = random.Random(ck.seed)
         recs += rnd.sample([x for x in extra if x["judged"]], 500)
+    big = big_tables(ck, ck.seed)
+    nsmall = len(recs)
+    recs = recs + big + big          # the large tables once with alphabetic, once with integer-looking mutation ids
     workdir = env.scratch("c17_files")
     tasks = list(enumerate(recs))
 
     def task(arg):
         i, rec = arg
-        return check_table(rec, i, workdir, ck.seed, corrupt if i == next(k for k, r in enumerate(recs) if r["judged"] and r["kept"]) else None)
+        names = INT_MUT if i >= nsmall + len(big) else None
+        return check_table(rec, i, workdir, ck.seed, corrupt if i == next(k for k, r in enumerate(recs) if r["judged"] and r["kept"]) else None, names=names)
 
     first = next(k for k, r in enumerate(recs) if r["judged"] and r["kept"])
     task(tasks[first])
